@@ -68,7 +68,9 @@ def st_source(draw, ctx, n=None, kind=None, keys=None, min_n=0):
 def st_slice_form(n, m):
     bound = st.one_of(st.none(), st.integers(-n - 1, n + 1))
     step = st.sampled_from([None, None, 1, 1, -1, 2, -2, 3, -3])
-    forms = [st.builds(lambda a, b, c: {'k': 'slice', 'a': a, 'b': b, 'c': c}, bound, bound, step)]
+    # bounds and steps as Python ints or (what arithmetic on lengths produces) numpy integers
+    forms = [st.builds(lambda a, b, c, how: dict({'k': 'slice', 'a': a, 'b': b, 'c': c}, **({'as': how} if how else {})),
+                       bound, bound, step, st.sampled_from([None, None, None, 'np']))]
     if n >= 1:
         idx = st.lists(st.integers(-n, n - 1), min_size=0, max_size=n + 2)
     else:
